@@ -113,7 +113,7 @@ def main():
         "confirmed": confirmed,
         "confirmation": verdict,
         "demonstration_test": test_name,
-        "what_it_needs_to_manifest": "see notes",
+        "what_it_needs_to_manifest": meta.get("summary", meta.get("what_it_needs_to_manifest", "see agent_notes")),
         "agent_notes": notes[:6000],
         "what_i_ran": ran,
     })
